@@ -113,6 +113,38 @@ package regclient
 //@     invariant counter: waitCount >= 0 && waitCount == $spawned - $received && $allNil
 //@   loop 6 ()
 //@     invariant counter: waitCount >= 0 && waitCount == $spawned - $received && (err == nil ==> $allNil)
+// each task copies the element it was started for, between the references of this copy (an index
+// entry by its own digest in both repositories)
+//@ callsite (*RegClient).imageCopyBlob(ctx, refSrc, refTgt, d, opt, bOpt)
+//@   prop C03
+//@   name imageCopyBlob/config-task
+//@   in ~
+//@   infunc \)\.imageCopyOpt\$4$
+//@   requires copies-the-config-of-this-manifest: d == caller.cd && refSrc == caller.refSrc && refTgt == caller.refTgt && opt == caller.opt
+//@ callsite (*RegClient).imageCopyBlob(ctx, refSrc, refTgt, d, opt, bOpt)
+//@   prop C03
+//@   name imageCopyBlob/layer-task
+//@   in ~
+//@   infunc \)\.imageCopyOpt\$5$
+//@   requires copies-this-layer: d == caller.layerSrc && refSrc == caller.refSrc && refTgt == caller.refTgt && opt == caller.opt
+//@ callsite (*RegClient).imageCopyBlob(ctx, refSrc, refTgt, d, opt, bOpt)
+//@   prop C03
+//@   name imageCopyBlob/entry-task
+//@   in ~
+//@   infunc \)\.imageCopyOpt\$3$
+//@   requires copies-this-entry: d == caller.dEntry && refSrc == caller.entrySrc && refTgt == caller.entryTgt && opt == caller.opt
+//@ callsite (*RegClient).imageCopyOpt(ctx, refSrc, refTgt, d, child, parents, opt)
+//@   prop C03
+//@   name imageCopyOpt/entry-task
+//@   in ~
+//@   infunc \)\.imageCopyOpt\$3$
+//@   requires copies-this-entry: d == caller.dEntry && refSrc == caller.entrySrc && refTgt == caller.entryTgt && opt == caller.opt
+//@ callsite (~/types/ref.Ref).SetDigest(digest)
+//@   prop C03
+//@   name SetDigest/entry-task
+//@   in ~
+//@   infunc \)\.imageCopyOpt\$3$
+//@   requires by-the-entrys-own-digest: digest == string(caller.dEntry.Digest) && (recv == caller.refSrc || recv == caller.refTgt)
 //@ callsite imagePlatformInList(target, list)
 //@   prop C03
 //@   name imagePlatformInList/imageCopyOpt
